@@ -23,7 +23,7 @@ sys.path.insert(0, os.path.join(lib.ROOT, "gen"))
 import undef_tables  # noqa: E402
 
 RULE = ("exhaustive: 8 undefined types (Undefined, Chainable, Debug, Strict and make_logging_undefined of each) x 4 "
-        "origins (missing name, missing attribute, missing item, explicit hint) x 212 operations (20 unary/protocol "
+        "origins (missing name, missing attribute, missing item, explicit hint) x 213 operations (21 unary/protocol "
         "operations, `x in u` for 7 other operands, `u in str/list/dict`, 7 arithmetic and 6 comparison operators x "
         "both operand orders x 7 other operands: int float str None list same-class-undefined plain-Undefined) x "
         "execution path (direct python; through a compiled template when a template form exists). distinct = "
@@ -35,7 +35,7 @@ CLASSES = ["NBU", "NBC", "NBD", "NBS", "LBU", "LBC", "LBD", "LBS"]
 OTHERS = ["int", "float", "str", "none", "list", "same", "plain"]
 ARITH = {"add": "+", "sub": "-", "mul": "*", "div": "/", "floordiv": "//", "mod": "%", "pow": "**"}
 CMP = {"eq": "==", "ne": "!=", "lt": "<", "le": "<=", "gt": ">", "ge": ">="}
-UNARY = ["str", "bool", "iter", "len", "hash", "pos", "neg", "int", "float", "call", "callt", "getattr", "getdunder",
+UNARY = ["str", "bool", "iter", "aiter", "len", "hash", "pos", "neg", "int", "float", "call", "callt", "getattr", "getdunder",
          "getitem", "isdefined", "isundefined", "default", "copy", "deepcopy", "pickle"]
 ORIGINS = {"name": "missing_var", "attr": "obj.missing_attr", "item": "seq[7]", "hint": "(empty_seq|first)"}
 
@@ -125,6 +125,7 @@ class World:
             self.cls["L" + b] = runtime.make_logging_undefined(self.logger, k)
         self.plain = runtime.Undefined
         self.env = {c: jinja2.Environment(undefined=k) for c, k in self.cls.items()}
+        self.env_async = {c: jinja2.Environment(undefined=k, enable_async=True) for c, k in self.cls.items()}
         self.UndefinedError = jinja2.exceptions.UndefinedError
         self.cache = {}
 
@@ -157,10 +158,10 @@ class World:
             self.cache[key] = self.env[c].compile_expression(text, undefined_to_none=False)
         return self.cache[key]
 
-    def tmpl(self, c, text):
-        key = (c, "T", text)
+    def tmpl(self, c, text, is_async=False):
+        key = (c, "T", text, is_async)
         if key not in self.cache:
-            self.cache[key] = self.env[c].from_string(text)
+            self.cache[key] = (self.env_async if is_async else self.env)[c].from_string(text)
         return self.cache[key]
 
     def make(self, c, origin):
@@ -234,6 +235,15 @@ def direct(w, c, op, u, x):
     if k == "iter":
         items = list(iter(u))
         return "ITER-EMPTY" if items == [] else "ITER-NONEMPTY"
+    if k == "aiter":
+        import asyncio
+        from jinja2.async_utils import auto_aiter
+
+        async def collect():
+            return [it async for it in auto_aiter(u)]
+
+        items = asyncio.run(collect())
+        return "ITER-EMPTY" if items == [] else "ITER-NONEMPTY"
     if k == "len":
         return len(u)
     if k == "hash":
@@ -302,6 +312,8 @@ def template_form(op, origin):
         return "E", f"true if {U} else false"
     if k == "iter":
         return "T", "{% for it in " + U + " %}[{{ it }}]{% else %}ITER-EMPTY{% endfor %}"
+    if k == "aiter":      # the same loop rendered by an enable_async environment
+        return "A", "{% for it in " + U + " %}[{{ it }}]{% else %}ITER-EMPTY{% endfor %}"
     if k == "len":
         return "E", f"{U}|length"
     if k == "pos":
@@ -352,9 +364,9 @@ def observe(w, c, origin, op, path, msgs):
             v = w.vars(c)
             if o:
                 v["x"] = x
-            if kind == "T":
-                r = w.tmpl(c, src).render(**v)
-                if r == "ITER-EMPTY" and p[0] != "iter":
+            if kind in ("T", "A"):
+                r = w.tmpl(c, src, kind == "A").render(**v)
+                if r == "ITER-EMPTY" and p[0] not in ("iter", "aiter"):
                     r = "str:ITER-EMPTY"
             else:
                 r = w.expr(c, src)(**v)
@@ -442,7 +454,7 @@ def log_oracle(c, op, real):
         return None
     out, logs = real.split(" logs=")
     logs = logs.split(",") if logs else []
-    if op in ("str", "iter") and "Wself" not in logs:
+    if op in ("str", "iter", "aiter") and "Wself" not in logs:
         return (f"printing / iterating a logging undefined was not logged (logs={logs})", "C21:logging:print-iter-not-logged")
     if out == "raise:self" and "Eself" not in logs:
         fam = "getattr" if op == "getattr" else "operator-alias"
